@@ -226,8 +226,9 @@ func VerifC04() {
 	l3install()
 	T, g1, g2, focus, fkey, fit, hasFocus := c04token()
 	p2 := g2 != nil
-	// an unknown extra key is ignored
+	// unknown extra members are ignored, whatever the type of their key
 	T.put(99999, &vItem{kind: ikUint, u: 7}, ndBool("extra.key"))
+	T.tkey, T.telem, T.thas = "vendor-ext", &vItem{kind: ikUint, u: 7}, ndBool("extra.textkey")
 	buf := verifEncodeItem(T)
 	dec, err := DecodeAndValidateClaimsFromCBOR(buf)
 	accepted := err == nil
